@@ -203,9 +203,11 @@ Definition chunk {A} (n : nat) (l : list A) : list (list A) := chunk_fuel (lengt
 
 Definition CAP : nat := N.to_nat Gen.Facts.batch_cap.
 
-Definition batches_of (ps : list cdp) (e : scan_end) : list (list cdp) :=
+(* `keep` = get_array_batch ends the batch on InvalidInput keeping what it has read (the repaired
+   code); false = it returns the error instead of the batch (defect F16) *)
+Definition batches_of (keep : bool) (ps : list cdp) (e : scan_end) : list (list cdp) :=
   match e with
-  | End_batch_dropped => chunk CAP (firstn (length ps / CAP * CAP) ps)
+  | End_batch_dropped => if keep then chunk CAP ps else chunk CAP (firstn (length ps / CAP * CAP) ps)
   | _ => chunk CAP ps
   end.
 
@@ -217,14 +219,15 @@ Definition scan_fuel (input : list N) : nat := S (S (length input / 64)).
 
 Record scan_out := { so_batches : list (list cdp); so_stats : list instat; so_end : scan_end }.
 
-Definition scan (off_after : bool) (c : scfg) (input : list N) : scan_out :=
+Definition scan (off_after keep : bool) (c : scfg) (input : list N) : scan_out :=
   let '(st, ps, e) := scan_flat off_after (scan_fuel input) c (sinit input) in
-  {| so_batches := batches_of ps e; so_stats := flush st; so_end := e |}.
+  {| so_batches := batches_of keep ps e; so_stats := flush st; so_end := e |}.
 
 (* all CDPs handed on, in order *)
-Definition scan_cdps (off_after : bool) (c : scfg) (input : list N) : list cdp :=
-  concat (so_batches (scan off_after c input)).
+Definition scan_cdps (off_after keep : bool) (c : scfg) (input : list N) : list cdp :=
+  concat (so_batches (scan off_after keep c input)).
 
 (* the scanner as the current source has it (Gen.Facts.cdp_offset_sampled_after is read from
    load_cdp on every run) *)
-Definition scan_impl (c : scfg) (input : list N) : scan_out := scan Gen.Facts.cdp_offset_sampled_after c input.
+Definition scan_impl (c : scfg) (input : list N) : scan_out :=
+  scan Gen.Facts.cdp_offset_sampled_after Gen.Facts.batch_kept_on_invalid_input c input.
